@@ -136,7 +136,6 @@ func (e *Engine) ParseTemplateAndCache(source []byte, path string, line int) (*T
 	if err != nil {
 		return t, err
 	}
-	// keep a copy: the caller may reuse its buffer for the next file
-	e.cfg.Cache[path] = append([]byte(nil), source...)
+	e.cfg.CacheSource(path, source)
 	return t, err
 }
